@@ -10,7 +10,7 @@
    = every Exec of the history names the row's primary key and the index keys of its old
    and new contents, and every explicit Set stores what the database holds. *)
 From Coq Require Import List ZArith Bool NArith.
-From GZ Require Import C06.Model C06.Proofs C06.GenProofs C06.ProofsB C06.ProofsC C06.Codec C06.CodecProofs.
+From GZ Require Import C06.Model C06.Proofs C06.GenProofs C06.ProofsB C06.ProofsC C06.ProofsE C06.Codec C06.CodecProofs.
 From GZ Require C07.Model C06.ProofsD.
 Import ListNotations.
 Open Scope Z_scope.
@@ -158,6 +158,29 @@ Theorem load_suppression : forall c s p t n,
 Proof. exact load_suppression_lemma. Qed.
 Print Assumptions load_suppression.
 
+(* Several instances.  A history in which ANY number of CachedConn / cache.Cache instances - each
+   with its own options, all over the same nodes - issue the operations ([finalm]: a list of
+   (options of the issuing instance, operation)) leaves the same guarantee for a read through any
+   instance [c]: entries written with one instance's expiry are served coherently by the others.
+   With one instance this is [coherent_reads] ([finalm_single]). *)
+Theorem coherent_reads_any_instances : forall rows cops c,
+  NoDup (map fst rows) -> all_disciplinedm (init rows) cops = true ->
+  Forall (fun co => same_nodes c (fst co)) cops ->
+  let s := finalm (init rows) cops in
+  (forall p o, take_like o p -> dirty s (KP p) = false ->
+     db (fst (step c s o)) = db s /\
+     (forall p' u v, oret (snd (step c s o)) = RRow p' u v -> p' = p /\ db_get p (db s) = Some (u, v)) /\
+     (oret (snd (step c s o)) = RNf -> db_get p (db s) = None)) /\
+  (forall p, dirty s (KP p) = false ->
+     forall p' u v, oret (snd (step c s (OGet p))) = RRow p' u v -> p' = p /\ db_get p (db s) = Some (u, v)) /\
+  (forall u o, qri_like o u -> dirty s (KU u) = false ->
+     (forall e p, lookup (clock s) (cache s) (KU u) = Some e -> eval e = CPk p -> dirty s (KP p) = false) ->
+     db (fst (step c s o)) = db s /\
+     (forall p u' v, oret (snd (step c s o)) = RRow p u' v -> u' = u /\ db_get p (db s) = Some (u, v)) /\
+     (oret (snd (step c s o)) = RNf -> forall p v, db_get p (db s) <> Some (u, v))).
+Proof. exact coherent_reads_instances_lemma. Qed.
+Print Assumptions coherent_reads_any_instances.
+
 (* Load suppression against the interleaving model of SingleFlight (C07.Model: threads are scripts
    of calls [mkOp GSF key val err] = barrier.DoEx(key, fn) whose fn - for C06: doTake's closure
    GET / database query / SETEX, at most ONE query by [one_query_per_operation] - returns
@@ -301,3 +324,16 @@ Example ex_codec :
   gcode true (through_cache (VString [48; 48; 55])) = Some (scode [48; 48; 55]) /\
   scode [48; 48; 55] <> scode [55] /\ gcode false (VString [55]) = None.
 Proof. vm_compute. repeat split; discriminate. Qed.
+
+(* two instances (100 s / 10 s and the defaults) interleaved: the second serves what the first
+   cached and invalidates it; hypotheses of [coherent_reads_any_instances] hold *)
+Definition ex_cfg2 : config := mkCfg 0 0 [(KP 1, 1)] false.
+Definition ex_cops : list (config * op) :=
+  [(ex_cfg, OTake 1 100); (ex_cfg2, OTake 1 0); (ex_cfg2, OQri 8 604800);
+   (ex_cfg2, OExec 1 (Some (7, 42)) [KP 1; KU 7]); (ex_cfg, OTake 1 100); (ex_cfg, OQri 8 0)].
+Example ex_instances :
+  all_disciplinedm (init ex_rows) ex_cops = true /\
+  Forall (fun co => same_nodes ex_cfg (fst co)) ex_cops /\
+  let s := finalm (init ex_rows) ex_cops in
+  step ex_cfg2 s (OTake 1 0) = (s, mkObs (RRow 1 7 42) 0 0) /\ dirty s (KP 1) = false.
+Proof. split; [vm_compute; reflexivity|]. split; [repeat constructor|]. vm_compute. split; reflexivity. Qed.
